@@ -226,7 +226,7 @@ def h_tables(ctx):
         ctx.check_eq('tables/num_sections/extended', elf.num_sections(), null_fields['sh_size'])
     else:
         ctx.check_eq('tables/num_sections', elf.num_sections(), nsec_total)
-        got = ctx.drain(elf.iter_sections())
+        got = ctx.walk(lambda: elf.iter_sections())
         ctx.check_eq('tables/iter_sections/count', len(got), nsec_total)
         for i, f in enumerate(secs):
             s = elf.get_section(i + 1)
@@ -248,7 +248,7 @@ def h_tables(ctx):
         ctx.check_eq('tables/num_segments/extended', elf.num_segments(), null_fields['sh_info'])
     else:
         ctx.check_eq('tables/num_segments', elf.num_segments(), cfg['nseg'])
-        gsegs = ctx.drain(elf.iter_segments())
+        gsegs = ctx.walk(lambda: elf.iter_segments())
         ctx.check_eq('tables/iter_segments/count', len(gsegs), cfg['nseg'])
         for i, f in enumerate(segs):
             s = elf.get_segment(i)
@@ -259,6 +259,37 @@ def h_tables(ctx):
                     ctx.check_eq('tables/segment/%s' % k, s[k], v)
             if len(gsegs) == cfg['nseg']:
                 ctx.check_eq('tables/segment/iter-order', gsegs[i]['p_offset'], f['p_offset'])
+
+
+# ------------------------------------------------------------------ H1.6 more sections than a 16-bit index can number
+def h_many_sections(ctx):
+    """a file with more than 0xff00 sections (extended numbering for both the count and the name-table index): the entries 0xff00..0xffff
+    of the section header table are ordinary sections - only index FIELDS reserve those values (ground instance, a 2.6 MB image)"""
+    cfg = ctx.cfg
+    cls, little, n = cfg['elfclass'], cfg['little'], cfg['n']
+    EF = ctx.lib('elf.elffile')
+    img = Image(cls, little, machine=MACH['X86_64'])
+    img.section('', sh_type=0)
+    marks = {0xfeff: '.below', 0xff00: '.lo', 0xff01: '.lo1', 0xfff1: '.abs', 0xffff: '.hi', 0x10000: '.over', n - 1: '.last'}
+    for i in range(1, n):
+        img.section(marks.get(i, ''), sh_type=8, sh_offset=i, sh_size=i & 0xff)
+    stridx = img.add_shstrtab(index_field=False)
+    img.sections[0]['sh_link'] = stridx
+    img.sections[0]['sh_size'] = n + 1
+    data = img.build(e_shstrndx=0xffff, e_shnum=0)
+    elf = EF.ELFFile(ctx.stream(data))
+    ctx.outcome('ok')
+    ctx.check_eq('many/num_sections', elf.num_sections(), n + 1)
+    got = [(s.name, s['sh_offset']) for s in elf.iter_sections()]
+    ctx.check_eq('many/iter_sections/count', len(got), n + 1)
+    ctx.check_eq('many/iter_sections/in-file-order', [o for _, o in got[1:n]], list(range(1, n)))
+    for i, nm in sorted(marks.items()):
+        if i < len(got):
+            ctx.check_eq('many/enumerated-name/%#x' % i, got[i][0], nm)
+        ctx.check_eq('many/get_section/%#x' % i, elf.get_section(i).name, nm)
+        ctx.check_eq('many/get_section_index/%s' % nm, elf.get_section_index(nm), i)
+        s = elf.get_section_by_name(nm)
+        ctx.check('many/get_section_by_name/%s' % nm, s is not None and s['sh_offset'] == i)
 
 
 # ------------------------------------------------------------------ H1.4 type -> object kind
@@ -322,7 +353,7 @@ def h_kinds(ctx):
     ctx.outcome('ok')
     ctx.check_eq('kind/%s/%s' % (t if t == 'other' else hex(t), machine), type(sec).__name__, want)
     ctx.check_eq('kind/name', sec.name, name)
-    ctx.check_eq('kind/via-iter', type(ctx.drain(elf.iter_sections())[3]).__name__, want)
+    ctx.check_eq('kind/via-iter', type(ctx.walk(lambda: elf.iter_sections())[3]).__name__, want)
 
 
 def h_seg_kinds(ctx):
@@ -363,7 +394,7 @@ def h_lookup(ctx):
     elf = EF.ELFFile(ctx.stream(data))
     if cfg.get('warm'):
         elf.has_section('zzz')
-    secs = ctx.drain(elf.iter_sections())
+    secs = ctx.walk(lambda: elf.iter_sections())
     names = [s.name for s in secs]
     ctx.outcome('ok')
 
@@ -403,7 +434,7 @@ def h_long_names(ctx):
     img.add_shstrtab()
     elf = EF.ELFFile(ctx.stream(img.build()))
     ctx.outcome('ok')
-    ctx.check_eq('long-names/names', [s.name for s in ctx.drain(elf.iter_sections())], [''] + names + ['.shstrtab'])
+    ctx.check_eq('long-names/names', [s.name for s in ctx.walk(lambda: elf.iter_sections())], [''] + names + ['.shstrtab'])
     for i, nm in enumerate(names):
         ctx.check_eq('long-names/index', elf.get_section_index(nm), i + 1)
         sec = elf.get_section_by_name(nm)
@@ -464,6 +495,9 @@ HARNESSES = [
       bounds={'all': 'all 2^32 type codes per table'}),
     H('h1_5_long_names', h_long_names, lambda tier: [dict(elfclass=c, little=l, lengths=ln) for c, l in ENVS[1:3] for ln in ([64], [63, 64, 65], [128, 200, 64], [192])], expect=('ok',), decoy=-1,
       desc='section names whose length is around and at multiples of 64 characters: enumeration and lookups by name (ground)'),
+    H('h1_6_many_sections', h_many_sections, lambda tier: [dict(elfclass=32, little=True, n=0x10003)], expect=('ok',), decoy=-1,
+      desc='65540 sections (e_shnum = 0, e_shstrndx = SHN_XINDEX): every entry of the table is enumerated in file order, also those whose index lies in the '
+           'reserved range 0xff00..0xffff or beyond 0xffff; lookups by index and by name agree with the enumeration (ground instance)'),
     H('h1_3_tables', h_tables, _tables_instances, expect=('ok',),
       desc='real constructor on generated images: section/program header tables at varied offsets with entry-size slack, 0-3 entries with all field values symbolic; '
            'counts, order, every field, names; extended numbering (e_shnum=0 -> sh_size of section 0, e_phnum=0xffff -> sh_info, e_shstrndx=0xffff -> sh_link) with symbolic counts'),
